@@ -35,8 +35,10 @@ TInit == /\ l = 1 /\ zi = 0 /\ di = 0 /\ hi = 0 /\ seen = [hlen |-> FALSE, nodel
 
 TInput == /\ Ev("input") /\ phase = "idle"
           /\ mod' = Rec[l].m
-          /\ st' = ParseModule(Rec[l].m)
-          /\ hdr' = BuildHeader(ParseModule(Rec[l].m).n)
+          \* the algorithm model is only run where it is compared (modules of a thousand declarations or bodies of
+          \* thousands of statements are validated at rule level only)
+          /\ st' = (IF Strict THEN ParseModule(Rec[l].m) ELSE S0)
+          /\ hdr' = (IF Strict THEN BuildHeader(ParseModule(Rec[l].m).n) ELSE NoHdr)
           /\ zi' = 0 /\ di' = 0 /\ hi' = 0 /\ seen' = [hlen |-> FALSE, nodelen |-> FALSE]
           /\ phase' = "run" /\ l' = l + 1
 
@@ -109,6 +111,10 @@ TEnd == /\ Ev("end") /\ phase = "idle" /\ phase' = "ended" /\ l' = l + 1
 
 TNext == TEnd \/ TInput \/ TZStart \/ TZone \/ TDecl \/ TNodeLen \/ THSkip \/ THStep \/ THLen \/ TOther \/ TOutcome
 TSpec == TInit /\ [][TNext]_tvars
+
+\* The recording is a single behaviour (the disjuncts of TNext exclude each other), so the position in it identifies
+\* the state: TLC need not fingerprint a module of a thousand declarations at every step.
+TView == <<l, phase, zi, di, hi, seen>>
 
 Accepted == LET d == TLCGet("stats").diameter - 1
             IN PrintT(<<"TRACE", ToJson([accepted |-> (d = Len(Rec)), matched |-> d, total |-> Len(Rec)])>>)
